@@ -38,6 +38,7 @@ func checkC17(w *World, r *Report) {
 	r.Assumptions = []string{"no integer overflow of cursor arithmetic (inputs shorter than 2^63 bytes)"}
 	checkC17RedirectGuard(w, r)
 	checkC17Index(w, r)
+	checkC17Alphabet(w, r)
 }
 
 func checkC17RedirectGuard(w *World, r *Report) {
@@ -1082,4 +1083,67 @@ func (x *c17fn) reaches(b *cfg.Block, i int, ub *cfg.Block, ui int) bool {
 		return true
 	}
 	return x.af.reachableFrom(b)[ub]
+}
+
+// checkC17Alphabet: the canonical form is defined over three classes of bytes — '/', '.', anything else — so the cleaner
+// may examine a byte of its input only by comparing it with '/' or '.', or with another byte of the input/output (the
+// lazy-buffer comparison). A comparison with any other constant gives some other byte a meaning the definition does not
+// know ("values touched only through comparisons").
+func checkC17Alphabet(w *World, r *Report) {
+	ru := r.Rule("C17.4", "CleanPath/bufApp examine bytes only by comparison with '/' or '.' (or with another byte of the input/output): no other byte value has a meaning in the canonical form", 6)
+	for _, name := range []string{"CleanPath", "bufApp"} {
+		af := w.astFuncOf(modulePath, name)
+		info := af.pkg.TypesInfo
+		isByte := func(e ast.Expr) bool {
+			t := info.TypeOf(e)
+			if t == nil {
+				return false
+			}
+			b, ok := t.Underlying().(*types.Basic)
+			return ok && (b.Kind() == types.Uint8 || b.Kind() == types.UntypedRune || b.Kind() == types.Int32)
+		}
+		constByte := func(e ast.Expr) (int64, bool) {
+			if tv, ok := info.Types[e]; ok && tv.Value != nil && tv.Value.Kind() == constant.Int {
+				return constant.Int64Val(tv.Value)
+			}
+			return 0, false
+		}
+		ast.Inspect(af.decl.Body, func(n ast.Node) bool {
+			switch t := n.(type) {
+			case *ast.BinaryExpr:
+				switch t.Op {
+				case token.EQL, token.NEQ, token.LSS, token.LEQ, token.GTR, token.GEQ:
+				default:
+					return true
+				}
+				for _, pr := range [][2]ast.Expr{{t.X, t.Y}, {t.Y, t.X}} {
+					if _, isConst := constByte(pr[0]); isConst || !isByte(pr[0]) {
+						continue
+					}
+					// pr[0] is a byte-typed non-constant operand
+					bt, _ := info.TypeOf(pr[0]).Underlying().(*types.Basic)
+					if bt == nil || bt.Kind() != types.Uint8 {
+						continue
+					}
+					v, isConst := constByte(pr[1])
+					ok := !isConst || ((t.Op == token.EQL || t.Op == token.NEQ) && (v == '/' || v == '.'))
+					why := "compared with another byte"
+					if isConst {
+						why = fmt.Sprintf("compared with %q using %s", rune(v), t.Op)
+					}
+					ru.Check(fmt.Sprintf("%s in %s", exprStr(t), name), w.Pos(t.Pos()), "a byte is compared only with '/' or '.' (== / !=) or with another byte", ok, why)
+				}
+			case *ast.SwitchStmt:
+				if t.Tag != nil && isByte(t.Tag) {
+					for _, st := range t.Body.List {
+						for _, e := range st.(*ast.CaseClause).List {
+							v, isConst := constByte(e)
+							ru.Check(fmt.Sprintf("case %s of switch %s in %s", exprStr(e), exprStr(t.Tag), name), w.Pos(e.Pos()), "a byte is compared only with '/' or '.'", isConst && (v == '/' || v == '.'), exprStr(e))
+						}
+					}
+				}
+			}
+			return true
+		})
+	}
 }
